@@ -495,6 +495,164 @@ def gen_C18(rng, nops=400):
     return "\n".join(L) + "\n"
 
 
+CT_STYLES = ["mc", "mu", "oc", "ou"]
+CT_STALE = ["agg", "mod", "lazy"]
+
+
+def rand_ctopts(rng):
+    o = []
+    if rng.random() < 0.8:
+        o.append("ct=" + rng.choice(CT_STYLES))
+    if rng.random() < 0.7:
+        o.append("stale=" + rng.choice(CT_STALE))
+    if rng.random() < 0.5:
+        o.append("maxsize=" + str(rng.choice([1, 2, 8, 64, 1024, 100000])))
+    if rng.random() < 0.3:
+        o.append("compress=type")
+    return " ".join(o)
+
+
+def gen_hist(rng, nops=None, labs=("mt", "mt", "mt", "evp"), audit_every=3, ctopts=None, fanin=True,
+             blank=False):
+    """long mixed history: constructions, operations, copies, releases, cache
+    clears, with an audit of every forest after every few lines"""
+    ctx = Ctx(rng)
+    rel = rng.random() < 0.5
+    nops = nops or rng.randint(15, 60)
+    ctx.emit("init " + (rand_ctopts(rng) if ctopts is None else ctopts))
+    d = rand_domain(rng, "D", rel, 400)
+    ctx.emit(d.decl())
+    ctx.doms.append(d)
+    rules = RULES_REL if rel else RULES_SET
+    kinds = []
+    for lab in labs:
+        if lab == "mt":
+            kinds.append((rng.choice(["bool", "int", "int", "real"]), "mt"))
+        elif lab == "evp":
+            kinds.append(("int", "evp"))
+        else:
+            if rel:
+                kinds.append(("real", "evt"))
+    nf = rng.choice([2, 3, 4])
+    for i in range(nf):
+        rg, lab = rng.choice(kinds)
+        f = Forest("F%d" % i, d, rel, rg, lab, rng.choice(rules), rand_opts(rng))
+        ctx.emit(f.decl())
+        ctx.forests.append(f)
+
+    def audit_all():
+        for f in ctx.forests:
+            ctx.emit("audit %s" % f.name)
+
+    for _ in range(rng.randint(2, 4)):
+        gen_leaf_any(ctx, rng.choice(ctx.forests))
+    audit_all()
+    for step in range(nops):
+        names = list(ctx.edges)
+        r = rng.random()
+        if r < 0.45 and names:
+            a = rng.choice(names)
+            fa = ctx.edges[a]
+            # partner in a forest of the same labeling and range
+            cands = [e for e in names if ctx.edges[e].lab == fa.lab and ctx.edges[e].range == fa.range]
+            b = rng.choice(cands)
+            tgt = rng.choice([f for f in ctx.forests if f.lab == fa.lab and f.range == fa.range])
+            if fa.range == "bool":
+                op = rng.choice(SETOPS)
+            elif fa.lab == "mt":
+                op = rng.choice(["plus", "minus", "max", "min", "mult"] if fa.range == "int"
+                                else ["plus", "minus", "max", "min"])
+            else:
+                op = rng.choice(["plus", "min", "max"])
+            n = ctx.fresh()
+            ctx.emit("apply %s %s %s %s %s" % (n, tgt.name, op, a, b))
+            ctx.edges[n] = tgt
+        elif r < 0.55 and names:
+            a = rng.choice(names)
+            fa = ctx.edges[a]
+            tg = [f for f in ctx.forests if f.lab == "mt" and fa.lab == "mt"]
+            if tg:
+                tgt = rng.choice(tg)
+                n = ctx.fresh()
+                ctx.emit("unary %s %s copy %s" % (n, tgt.name, a))
+                ctx.edges[n] = tgt
+        elif r < 0.68:
+            gen_leaf_any(ctx, rng.choice(ctx.forests))
+        elif r < 0.80 and len(names) > 1:
+            v = rng.choice(names)
+            ctx.emit("release %s" % v)
+            del ctx.edges[v]
+        elif r < 0.86 and names:
+            a = rng.choice(names)
+            n = ctx.fresh("c")
+            ctx.emit("copyedge %s %s" % (n, a))
+            ctx.edges[n] = ctx.edges[a]
+        elif r < 0.90 and len(names) > 1:
+            a, b = rng.choice(names), rng.choice(names)
+            if ctx.edges[a] is ctx.edges[b] and a != b:
+                ctx.emit("assign %s %s" % (a, b))
+        elif r < 0.95:
+            ctx.emit("clearct" if rng.random() < 0.5 else "clearct %s" % rng.choice(ctx.forests).name)
+        elif names:
+            ctx.emit("card %s" % rng.choice(names))
+        if step % audit_every == audit_every - 1:
+            audit_all()
+    # fan-in: many copies of one root push its count across the 8/16-bit widths
+    if fanin and ctx.edges and rng.random() < 0.5:
+        a = rng.choice(list(ctx.edges))
+        k = rng.choice([254, 255, 256, 257, 300])
+        for i in range(k):
+            ctx.emit("copyedge z%d %s" % (i, a))
+            if i in (253, 254, 255, 256):
+                ctx.emit("audit %s" % ctx.edges[a].name)
+        ctx.emit("audit %s" % ctx.edges[a].name)
+        for i in range(k):
+            ctx.emit("release z%d" % i)
+            if k - i in (257, 256, 255, 254):
+                ctx.emit("audit %s" % ctx.edges[a].name)
+        ctx.emit("audit %s" % ctx.edges[a].name)
+    # everything still held is re-shown (held edges keep their function)
+    for e in list(ctx.edges):
+        ctx.emit("show %s" % e)
+    # release everything, clear caches: nothing may remain
+    for e in list(ctx.edges):
+        ctx.emit("release %s" % e)
+    ctx.emit("clearct")
+    audit_all()
+    if blank:
+        # a blank line after every command (C07 turns them into cache clears)
+        out = []
+        for ln in ctx.lines:
+            out.append(ln)
+            out.append("")
+        return "\n".join(out) + "\n"
+    return ctx.text()
+
+
+def gen_leaf_any(ctx, f):
+    """leaf for MT or EV forests"""
+    if f.lab == "mt":
+        return gen_leaf(ctx, f)
+    rng = ctx.rng
+    name = ctx.fresh()
+    if f.lab == "evp":
+        n = rng.choice([1, 2, 3, 5])
+        parts = ["coll", name, f.name, "min", "inf"]
+        for _ in range(n):
+            pos = rand_pos_rel(rng, f.dom, 0.3, 0.2) if f.rel else rand_pos_set(rng, f.dom, 0.3)
+            parts += [";"] + pos + ["=>", str(rng.choice([0, 1, 2, 3, 5, 8]))]
+        ctx.emit(" ".join(parts))
+    else:
+        n = rng.choice([1, 2, 3])
+        parts = ["coll", name, f.name, "max", "0"]
+        for _ in range(n):
+            pos = rand_pos_rel(rng, f.dom, 0.3, 0.2)
+            parts += [";"] + pos + ["=>", str(rng.choice([32, 64, 128, 256]))]
+        ctx.emit(" ".join(parts))
+    ctx.edges[name] = f
+    return name
+
+
 GENS = {
     "C01": gen_C01,
     "C03": gen_C03,
